@@ -44,10 +44,12 @@ type c31Case struct {
 	Interleave bool `json:"interleave"`
 	// Sequential runs the goroutines' sequences one after another instead of concurrently
 	Sequential bool `json:"sequential"`
+	// AcceptDuringClose: while the underlying stream is being closed by the solicitation another caller accepts
+	AcceptDuringClose bool `json:"accept_during_close"`
 }
 
 func genC31(t *rapid.T) c31Case {
-	c := c31Case{Interleave: rapid.IntRange(0, 2).Draw(t, "il") == 0, Sequential: rapid.Bool().Draw(t, "seq")}
+	c := c31Case{Interleave: rapid.IntRange(0, 2).Draw(t, "il") == 0, Sequential: rapid.Bool().Draw(t, "seq"), AcceptDuringClose: rapid.IntRange(0, 2).Draw(t, "adc") == 0}
 	g := rapid.IntRange(1, 4).Draw(t, "g")
 	for i := 0; i < g; i++ {
 		c.Seqs = append(c.Seqs, rapid.StringMatching(`[aci]{1,4}`).Draw(t, "seq"))
@@ -109,6 +111,18 @@ func checkC31(c c31Case) (o vstat.Outcome) {
 			_ = cl.IsAccepted()
 		}
 	}
+	if c.AcceptDuringClose {
+		// the underlying stream's Close takes a while; an accept arrives in the meantime
+		a.OnClose = func() {
+			done := make(chan struct{})
+			go func() { doOp('a'); close(done) }()
+			select {
+			case <-done:
+			case <-time.After(20 * time.Millisecond):
+			}
+		}
+		o.Classes = append(o.Classes, "accept-while-stream-is-closing")
+	}
 	if c.Interleave {
 		hookMu.Lock()
 		defer hookMu.Unlock()
@@ -150,7 +164,7 @@ func checkC31(c c31Case) (o vstat.Outcome) {
 			hasC = hasC || s[i] == 'c'
 		}
 	}
-	o.NonTrivial = (hasA && (hasC || c.Interleave)) && (concurrent || c.Interleave || len(c.Seqs) > 1)
+	o.NonTrivial = (hasA && (hasC || c.Interleave)) && (concurrent || c.Interleave || len(c.Seqs) > 1) || (c.AcceptDuringClose && hasC)
 	switch {
 	case accepted > 1:
 		o.V = vstat.Viol("two-owners", "the stream was handed to %d accepters (%v)", accepted, order)
